@@ -258,7 +258,7 @@ end Constructors
 open Load in
 /-- `Ccy::try_new`: the stored name is the lower-cased input and has exactly three bytes. -/
 theorem C20_ccy_try_new (name c : String) (h : ccyTryNew name = some c) :
-    c = name.toLower ∧ c.utf8ByteSize = 3 :=
+    c = lowerStr name ∧ c.utf8ByteSize = 3 :=
   ccy_try_new_spec name c h
 
 open Load in
@@ -280,6 +280,33 @@ theorem C20_fxpair_try_new (l r a b : String) (h : fxPairTryNew l r = some (a, b
         injection h with h1 h2
         subst h1; subst h2
         exact ⟨rfl, rfl, hne⟩
+
+open Load in
+/-- The stored name of a currency is a fixed point of the constructor: constructing (or loading) a currency from
+a stored name gives that same currency, so a saved currency, pair or market names the same currencies when it is
+read back. -/
+theorem C20_ccy_stored_name_reloads (name c : String) (h : ccyTryNew name = some c) : ccyTryNew c = some c :=
+  ccy_stored_reloads name c h
+
+open Load in
+/-- `FXPair::try_new` accepts a pair EXACTLY when both codes have three bytes after lower-casing and differ
+after lower-casing; in particular two spellings of one currency ("USD"/"usd", "Äb"/"äb") never make a pair. -/
+theorem C20_fxpair_accepts_iff (l r : String) :
+    (fxPairTryNew l r).isSome ↔
+      ((lowerStr l).utf8ByteSize = 3 ∧ (lowerStr r).utf8ByteSize = 3 ∧ lowerStr l ≠ lowerStr r) :=
+  fxpair_accepts_iff l r
+
+open Load in
+theorem C20_fxpair_self_rejected (l r : String) (h : lowerStr l = lowerStr r) : fxPairTryNew l r = none :=
+  fxpair_self_rejected l r h
+
+/-- lower-casing is idempotent (what makes a stored name a fixed point) -/
+theorem C20_lower_idempotent (s : String) : lowerStr (lowerStr s) = lowerStr s := lowerStr_idem s
+
+/-! the character table on cased letters inside and outside ASCII, and on uncased neighbours -/
+example : lowerChar 'A' = 'a' ∧ lowerChar 'Z' = 'z' ∧ lowerChar '@' = '@' ∧ lowerChar '[' = '[' := by decide
+example : lowerChar 'Ä' = 'ä' ∧ lowerChar 'Þ' = 'þ' ∧ lowerChar '×' = '×' ∧ lowerChar 'ß' = 'ß' := by decide
+example : lowerChar 'Д' = 'д' ∧ lowerChar 'Ѐ' = 'ѐ' ∧ lowerChar 'Я' = 'я' ∧ lowerChar 'я' = 'я' := by decide
 
 /-- `NamedCal::try_new` has no abort path: every string gives a calendar or an error. -/
 theorem C20_named_try_new (table : String → Option Cal) (name : String) :
